@@ -53,6 +53,35 @@ def explore(prog, name, budget=300000):
                     if da is not None and da["op"] in ("mul", "shl") and da["ops"][0].get("k") == "v" and da["ops"][0]["id"] == mp["id"] and da["ops"][1].get("k") == "c":
                         c = da["ops"][1]["v"]
                         limits.add((c if da["op"] == "mul" else 2 ** c, b["v"]))
+    # a limit may also be a merged value: limit = (destbos == BOS_UNKNOWN) ? RSIZE_MAX_STR : destbos;  if (dmax > limit) ...
+    limit_values = set()          # SSA ids whose every alternative is a constant >= 64 or the object-size parameter
+    bosp = fn.pnames.get("destbos")
+
+    def alternatives(o, depth=0):
+        if o.get("k") == "c":
+            return [("c", o["v"])]
+        if o.get("k") != "v" or depth > 3:
+            return [("?", None)]
+        if bosp is not None and o["id"] == bosp["id"]:
+            return [("bos", None)]
+        dd = fn.defs.get(o["id"])
+        if dd is None:
+            return [("?", None)]
+        if dd["op"] == "select":
+            return alternatives(dd["ops"][1], depth + 1) + alternatives(dd["ops"][2], depth + 1)
+        if dd["op"] == "phi" and dd["_bb"] not in fn.loops:
+            return [a for x in dd["incoming"] for a in alternatives(x["v"], depth + 1)]
+        return [("?", None)]
+    for i in fn.insts():
+        if i["op"] == "icmp" and i["pred"] in ("ugt", "uge") and mp is not None:
+            a, b = i["ops"]
+            if a.get("k") == "v" and a["id"] == mp["id"] and b.get("k") == "v" and fn.defs.get(b["id"], {}).get("op") in ("select", "phi"):
+                alts = alternatives(b)
+                if alts and all(k_ == "bos" or (k_ == "c" and v_ >= 64) for (k_, v_) in alts):
+                    limit_values.add(b["id"])
+                    for (k_, v_) in alts:
+                        if k_ == "c":
+                            limits.add((1, v_))          # on the path that chose the constant the engine knows dmax > K itself
     outs = []
     seen = set()
     fam = dest_family(fn, fn.pnames[d]["id"])
@@ -77,6 +106,11 @@ def explore(prog, name, budget=300000):
                     break
             if plugin.destbos is not None and eng.decide(("cmp", "ugt", plugin.dmax.scale(plugin.unit), plugin.destbos), facts) is True:
                 ex.append("dmax-above-object")
+            if not any(x.startswith("dmax-above") for x in ex):
+                for lv in limit_values:
+                    if eng.decide(("cmp", "ugt", plugin.dmax, Lin.atom(lv)), facts) is True:
+                        ex.append("dmax-above-limit")
+                        break
         if "out" in fn.pnames:
             # the formatter writes into `buffer` only through the buffer output callback
             po = Lin.atom("&" + fn.pnames["out"]["id"])
